@@ -251,8 +251,8 @@ type c01Facts struct {
 	ptrPtrMarshaler bool // two or more pointer levels above a type with a pointer-receiver marshaler
 	omitPtrToNil    bool // omitempty field: non-nil pointer to a nil pointer / map / slice / interface
 	directArray     bool // a [1]T with pointer-shaped T held directly in an interface word (top level or in interface{})
-	keyOrder    bool // a map whose keys sort differently as escaped JSON text than as strings
-	depthConf   bool // embedded-field conflict (C15-embedded-depth)
+	keyOrder        bool // a map whose keys sort differently as escaped JSON text than as strings
+	depthConf       bool // embedded-field conflict (C15-embedded-depth)
 }
 
 func c01Walk(v reflect.Value, atIface bool, f *c01Facts, depth int) {
